@@ -239,7 +239,7 @@ theorem inv_init : Inv Sys.init :=
 
 theorem rel_init : Rel Sys.init Abs.init := ⟨List.Perm.refl _, List.Perm.refl _⟩
 
-theorem step_all (s : Sys) (a : Abs) (ev : Ev) (hI : Inv s) (hR : Rel s a) :
+theorem step_all (s : Sys) (a : Abs) (ev : Ev) (hI : Inv s) (hR : Rel s a) (hok : ExplicitOk s ev) :
     Inv (s.step ev) ∧ Rel (s.step ev) (a.step ev) := by
   cases ev with
   | addSeg docs => exact step_addSeg s a docs hI hR
@@ -247,16 +247,31 @@ theorem step_all (s : Sys) (a : Abs) (ev : Ev) (hI : Inv s) (hR : Rel s a) :
   | commit => exact step_commit s a hI hR
   | rollback => exact step_rollback s a hI hR
   | deleteAll => exact step_deleteAll s a hI hR
+  | removeEmpty => exact step_removeEmpty s a hI hR
   | startMerge ids => exact step_startMerge s a ids hI hR
+  | startMergeExplicit ids => exact step_startMergeExplicit s a ids hI hR hok
   | endMerge => exact step_endMerge s a hI hR
 
-theorem run_all (evs : List Ev) (s : Sys) (a : Abs) (hI : Inv s) (hR : Rel s a) :
+theorem run_all (evs : List Ev) (s : Sys) (a : Abs) (hI : Inv s) (hR : Rel s a) (hok : OkTrace s evs) :
     Inv (s.run evs) ∧ Rel (s.run evs) (a.run evs) := by
   induction evs generalizing s a with
   | nil => exact ⟨hI, hR⟩
   | cons ev rest ih =>
-    obtain ⟨h1, h2⟩ := step_all s a ev hI hR
-    exact ih (s.step ev) (a.step ev) h1 h2
+    obtain ⟨h1, h2⟩ := step_all s a ev hI hR hok.1
+    exact ih (s.step ev) (a.step ev) h1 h2 hok.2
+
+/-- event sequences without explicit merges satisfy `OkTrace` trivially -/
+def noExplicit : Ev → Bool
+  | .startMergeExplicit _ => false
+  | _ => true
+
+theorem okTrace_of_noExplicit (evs : List Ev) (s : Sys) (h : evs.all noExplicit = true) : OkTrace s evs := by
+  induction evs generalizing s with
+  | nil => trivial
+  | cons ev rest ih =>
+    simp only [List.all_cons, Bool.and_eq_true] at h
+    refine ⟨?_, ih _ h.2⟩
+    cases ev <;> first | trivial | (simp [noExplicit] at h)
 
 /-! ### the guard-selected machine is the mirrored one while the guards hold -/
 
